@@ -69,6 +69,9 @@ AlphaMultiO == AlphaOf([Query |-> {"o", "s"}, T |-> {"s"}])
 AlphaMultiF == AlphaOf([Query |-> {"on", "lnn", "s"}, T |-> {"sn"}])
 AlphaMultiT == AlphaOf([Query |-> {"on", "lo", "s"}])
 OKinds == {[o |-> "raise"], [o |-> "null"], [o |-> "len", n |-> 1]}
+AlphaMultiD == AlphaOf([Query |-> {"s", "o"}, T |-> {"s"}])
+DirsMixW == {<<>>, <<Dir("include", Lit("bool", TRUE))>>, <<Dir("skip", Lit("var", "v"))>>, <<Dir("include", Lit("var", "w"))>>}
+VarValsBoolBoth == [ v |-> {Bool(TRUE), Bool(FALSE)}, w |-> {Bool(TRUE), Bool(FALSE)}, n |-> {Int(3)}, m |-> {Int(4)}, x |-> {Str("xs")}, y |-> {Int(5)} ]
 OKindsRaise == {[o |-> "raise"]}
 VarValsSmall == [ v |-> {Bool(TRUE), Bool(FALSE)}, w |-> {Bool(FALSE)}, n |-> {Int(3)}, m |-> {Int(4)}, x |-> {Str("xs")}, y |-> {Int(5)} ]
 AlphaSub == AlphaOf([Subscription |-> {"ev", "evs"}, T |-> {"s", "sn"}])
